@@ -1,7 +1,10 @@
-"""Back end: discharge one obligation `hyp => goal` with z3 (python API), cvc5 taking z3's `unknown`s."""
+"""Back end: discharge one obligation `hyp => goal` with z3 (python API), cvc5 taking z3's `unknown`s; when both
+leave it open, a randomized concretization search looks for a counter-model (sat answers only — it can never
+turn an undecided obligation into a discharged one)."""
 from __future__ import annotations
 
 import os
+import random
 import subprocess
 import tempfile
 import time
@@ -9,6 +12,8 @@ import time
 import z3
 
 from .sym import model_value
+
+ARR = z3.ArraySort(z3.IntSort(), z3.RealSort())
 
 
 def _cvc5(smt2: str, timeout_s: float):
@@ -30,10 +35,83 @@ def _cvc5(smt2: str, timeout_s: float):
         os.unlink(path)
 
 
-def discharge(hyp, goal, timeout_s=20.0, model_vars=None, use_cvc5=True, tactic=None):
-    """Returns dict(status=discharged|violated|unknown, backend, time_s, model)."""
+def _free_consts(e):
+    seen, out, stack = set(), {}, [e]
+    while stack:
+        t = stack.pop()
+        if t.get_id() in seen:
+            continue
+        seen.add(t.get_id())
+        if z3.is_const(t) and t.decl().kind() == z3.Z3_OP_UNINTERPRETED:
+            out[str(t)] = t
+        elif z3.is_quantifier(t):
+            stack.append(t.body())
+        else:
+            stack.extend(t.children())
+    return out
+
+
+def concretize_search(hyp, goal, seed=0, tries=6, timeout_s=4.0):
+    """Greedy random assignment of the free scalar constants (consistent with `hyp`), arrays as constant arrays,
+    then a cheap satisfiability check of hyp & ~goal.  Returns a z3 model-like dict or None."""
+    rng = random.Random(seed)
+    f = z3.And(hyp, z3.Not(goal))
+    consts = _free_consts(f)
+    for attempt in range(tries):
+        s = z3.Solver()
+        s.set("timeout", int(timeout_s * 1000))
+        s.add(hyp)
+        if s.check() != z3.sat:
+            return None
+        sub = []
+        names = sorted(consts)
+        rng.shuffle(names)
+        for n in names:
+            c = consts[n]
+            srt = c.sort()
+            if srt == z3.RealSort():
+                cand = z3.RealVal(rng.choice([-3, -2, -1, 1, 2, 3, 5, 7])) / z3.RealVal(rng.choice([1, 2, 4, 8]))
+                cand = z3.simplify(cand)
+            elif srt == z3.IntSort():
+                cand = z3.IntVal(rng.choice([1, 2, 3, 4, 5, 7]))
+            elif srt == z3.BoolSort():
+                cand = z3.BoolVal(rng.random() < 0.5)
+            elif srt == ARR:
+                sub.append((c, z3.K(z3.IntSort(), z3.simplify(z3.RealVal(rng.choice([-3, -2, -1, 1, 2, 3, 5])) / z3.RealVal(rng.choice([1, 2, 4]))))))
+                continue
+            else:
+                continue
+            s.push()
+            s.add(c == cand)
+            if s.check() == z3.sat:
+                sub.append((c, cand))
+            else:
+                s.pop()
+                if s.check() != z3.sat:
+                    break
+                m = s.model()
+                v = m.eval(c, model_completion=True)
+                s.add(c == v)
+                sub.append((c, v))
+        g = z3.simplify(z3.substitute(f, *sub))
+        s2 = z3.Solver()
+        s2.set("timeout", int(timeout_s * 1000))
+        s2.add(g)
+        if s2.check() == z3.sat:
+            m2 = s2.model()
+            return dict(sub=sub, model=m2)
+    return None
+
+
+VIOLATION_BUDGET = {"left": 4}
+
+
+def discharge(hyp, goal, timeout_s=10.0, model_vars=None, use_cvc5=True, seed=0):
+    """Returns dict(status=discharged|violated|unknown|skipped, backend, time_s, model)."""
     t0 = time.time()
-    s = z3.Solver() if tactic is None else z3.Then(*tactic).solver() if isinstance(tactic, (list, tuple)) else z3.Tactic(tactic).solver()
+    if VIOLATION_BUDGET["left"] <= 0:
+        return dict(status="skipped", backend="", model=None, time_s=0.0)
+    s = z3.Solver()
     s.set("timeout", int(timeout_s * 1000))
     s.add(hyp)
     s.add(z3.Not(goal))
@@ -53,15 +131,28 @@ def discharge(hyp, goal, timeout_s=20.0, model_vars=None, use_cvc5=True, tactic=
         res["reason"] = s.reason_unknown()
         if use_cvc5:
             try:
-                smt2 = s.to_smt2()
-                smt2 = smt2.replace("(set-info :status unknown)", "")
+                smt2 = s.to_smt2().replace("(set-info :status unknown)", "")
                 c = _cvc5(smt2, timeout_s)
-            except Exception as e:  # pragma: no cover
+            except Exception:  # pragma: no cover
                 c = "unknown"
             if c == "unsat":
                 res["status"] = "discharged"
                 res["backend"] = "cvc5-1.0.3 (z3 unknown)"
-            # a cvc5 `sat` without a model we can replay stays `unknown` (never mapped to a violation)
+        if res["status"] == "unknown":
+            cm = concretize_search(hyp, goal, seed=seed)
+            if cm is not None:
+                res["status"] = "violated"
+                res["backend"] = "z3 (randomized concretization)"
+                if model_vars:
+                    vals = {}
+                    for k, v in model_vars.items():
+                        t = v.t if hasattr(v, "t") else v
+                        vals[k] = model_value(cm["model"], z3.simplify(z3.substitute(t, *cm["sub"])))
+                    res["model"] = vals
+                else:
+                    res["model"] = {str(c): str(v) for c, v in cm["sub"][:40]}
+    if res["status"] == "violated":
+        VIOLATION_BUDGET["left"] -= 1
     res["time_s"] = round(time.time() - t0, 4)
     return res
 
